@@ -41,6 +41,8 @@ def _load_jobs(patched_tables=None, modules=None):
 
 def _init_worker(modules):
     sys.path.insert(0, ROOT)
+    if os.environ.get("PYCV_REPO"):
+        sys.path.insert(0, os.environ["PYCV_REPO"])
     from pycv import patch
     tabs = patch.patch_all_gearpy()
     for name in modules:
